@@ -132,6 +132,13 @@ fn ar_cmd(a: &[&str]) -> String {
             ),
             Err(e) => format!("err:{}", e.replace(' ', "_")),
         },
+        ["seq", cap, ts @ ..] => {
+            let bs: Vec<Vec<(usize, usize)>> = ts.iter().map(|t| entries(t)).collect();
+            match fa::add_sequence(cap.parse().unwrap(), &bs) {
+                Ok(v) => v.iter().map(|(ok, n)| format!("{}:{}", if *ok { "a" } else { "r" }, n)).collect::<Vec<_>>().join(" "),
+                Err(e) => format!("err:{}", e.replace(' ', "_")),
+            }
+        }
         _ => "bad-command".to_string(),
     }
 }
